@@ -272,10 +272,9 @@ func checkModel(c modelCase) *vt.Fail {
 			var rel func() error
 			var fd int
 			var err error
-			select {
-			case a := <-done:
+			if a, ok := vt.Patience(rec, done, 8*time.Second); ok {
 				rel, fd, err = a.rel, a.fd, a.err
-			case <-time.After(8 * time.Second):
+			} else {
 				ex, sh, _ := probe(paths[o.Path])
 				return vt.Failf("blocked-with-no-holder", "%s has not returned after 8s although nothing holds a conflicting lock (probes of the file: exclusive %s, shared %s). history: %s", step, okStr(ex), okStr(sh), strings.Join(trail, " "))
 			}
